@@ -28,14 +28,29 @@ def blob_value(child):
     return (data, child["attrs"].get("format") or "")
 
 
+def blob_size_consistent(child):
+    """True when the declared size is the length of the payload; None when the format says the payload is compressed
+    (the declared size is that of the uncompressed data, so nothing can be said); False otherwise (also for a size
+    that is not an integer)."""
+    data, fmt = blob_value(child)
+    if fmt.endswith(".z"):
+        return None
+    try:
+        return int(child["attrs"].get("size")) == len(data)
+    except (TypeError, ValueError):
+        return False
+
+
 class RefClient:
     def __init__(self):
         self.devices = {}  # name -> {prop name -> prop}
         self.events = []  # events of the last message
+        self.ambiguous = set()  # (device, property, element) whose update in the last message may or may not be taken
 
     def apply(self, spec):
         """Apply one message; returns the list of expected events for it."""
         ev = []
+        self.ambiguous = set()
         kind = spec["kind"]
         a = spec["attrs"]
         if kind.startswith("def") and kind.endswith("Vector"):
@@ -70,6 +85,13 @@ class RefClient:
                     new = blob_value(c) if k == "BLOB" else norm(c.get("text"))
                     if k == "BLOB":
                         changed = True  # BLOB identity: every payload update is a new value
+                        if blob_size_consistent(c) is False:
+                            # an element whose declared size contradicts its payload: a client may take what was sent or
+                            # leave the element alone (it must not choke on it); both outcomes are acceptable from here on
+                            e["also"] = [x for x in e.get("also", []) if x != new] + [e["value"]]
+                            self.ambiguous.add((a["device"], a["name"], c["attrs"]["name"]))
+                        else:
+                            e["also"] = []
                     else:
                         changed = e["value"] != new
                     if changed:
@@ -84,6 +106,27 @@ class RefClient:
                     dev.pop(a["name"], None)
         self.events = ev
         return ev
+
+    def resolve(self, libview):
+        """Where several outcomes are acceptable (see `also`), adopt the one the client under test actually shows."""
+        def nb(v):
+            return None if (v is None or len(v[0]) == 0) else (v[0], v[1])
+
+        for dn, props in self.devices.items():
+            for pn, p in props.items():
+                for en, e in p["elements"].items():
+                    if not e.get("also"):
+                        continue
+                    try:
+                        got = libview[dn][pn][4][en][1]
+                    except (KeyError, IndexError, TypeError):
+                        continue
+                    if got != nb(e["value"]):
+                        for alt in e["also"]:
+                            if got == nb(alt):
+                                e["value"] = alt
+                                break
+                    e["also"] = []
 
     def view(self):
         """Comparable view: {dev: {prop: (kind, state, label, group, {el: (label, value)})}}; devices
